@@ -75,6 +75,9 @@ DOCS = [
     ("stop", "the value."),
     ("two", "the value. It is used twice"),
     ("long", "the value that is described at considerable length so that the emitted line certainly exceeds the wrap width of one hundred"),
+    ("colon", "the value: see below"),
+    ("multiline", "the value\nsecond line of it"),
+    ("tick", "use `x` here"),
     ("nodoc", None),
 ]
 DOCS_BASIC = DOCS[:1]
@@ -210,4 +213,5 @@ def vkind(v):
 def str_default_features(ir):
     """signature features of string defaults that the prose machinery is sensitive to"""
     ds = [p.get("default") for p in ir["params"].values() if isinstance(p.get("default"), str) and not p["default"].startswith("```")]
-    return dict(dot_in_default=any("." in d for d in ds), quote_in_default=any('"' in d for d in ds))
+    return dict(dot_in_default=any("." in d for d in ds), quote_in_default=any('"' in d for d in ds),
+                multiline_doc=any("\n" in (p.get("doc") or "") for p in ir["params"].values()))
